@@ -248,7 +248,7 @@ func runC10(c *report.Ctx) {
 	ruleClassBits(c)
 
 	// ---- (4) excluded from selection -----------------------------------------------------------------------
-	ruleEligibility(c, false)
+	ruleEligibility(c, "locks")
 
 	// ---- (5) the two history buckets keep their own key layouts --------------------------------------------
 	ruleSchema(c, []string{"nsGameHistory", "nsUnminedGameHistory"}, 6, 5)
